@@ -214,6 +214,10 @@ func (fr *Frame) modularCall(ins ssa.Instruction, fn *ssa.Function, fc *FuncCont
 	fx := fr.fx
 	eng := fx.eng
 	calleeName := eng.relName(fn)
+	if fx.usedCallees == nil {
+		fx.usedCallees = map[string]bool{}
+	}
+	fx.usedCallees[eng.relNameQ(fn)] = true
 	env := fx.calleeEnv(fn, args, bindings)
 	// preconditions
 	for i, c := range fc.Requires {
